@@ -11,8 +11,6 @@ require (
 	github.com/davecgh/go-spew v1.1.1 // indirect
 	github.com/go-faster/jx v1.2.0 // indirect
 	github.com/go-faster/xor v1.0.0 // indirect
-	github.com/gotd/ige v0.3.0 // indirect
-	github.com/gotd/log v0.1.0 // indirect
 	github.com/gotd/neo v0.1.5 // indirect
 	github.com/klauspost/compress v1.19.1 // indirect
 	github.com/pmezard/go-difflib v1.0.0 // indirect
@@ -37,6 +35,8 @@ replace github.com/gotd/td => /repo
 require (
 	github.com/cenkalti/backoff/v4 v4.3.0
 	github.com/go-faster/errors v0.8.0
+	github.com/gotd/ige v0.3.0
+	github.com/gotd/log v0.1.0
 	golang.org/x/tools v0.48.0
 )
 
